@@ -87,7 +87,9 @@ def arctan2(x, y):
     if x == 0 and y == 0:
         raise FunctionEvalError("arctan2(0, 0) is undefined")
 
-    return np.arctan2(y, x)
+    # Adding 0.0 turns a negative zero into zero: otherwise arctan2(-1, -0) = -pi,
+    # which is outside the range (-pi, pi]
+    return np.arctan2(y + 0.0, x)
 
 # NOTE: tests are in a separate file, NOT doctests.
 # see https://bugs.python.org/issue6835
